@@ -286,6 +286,27 @@ func checkKeyIO(c keyioCase) (err error) {
 	if derr != nil || !bytes.Equal(oct, want) {
 		return pbt.Errf("DNSKEY public key field is not the RFC encoding of the generated key (alg %d)", c.Alg)
 	}
+	if !c.RefMade && (c.Alg == 13 || c.Alg == 14 || c.Alg == 15) {
+		// fixed-width encodings only show their padding for the 1-in-256 keys with a leading zero
+		// octet in a coordinate: generate some more keys (cheap for EC / Ed25519) and check the
+		// public key field of each
+		for i := 0; i < 24; i++ {
+			k2 := &dns.DNSKEY{Hdr: k.Hdr, Flags: flags, Protocol: 3, Algorithm: c.Alg}
+			p2, e := k2.Generate(c.Bits)
+			if e != nil {
+				return pbt.Errf("Generate(%d) for algorithm %d: %v", c.Bits, c.Alg, e)
+			}
+			got, e := base64.StdEncoding.DecodeString(k2.PublicKey)
+			want2, _ := ref.KeyOctets(c.Alg, ref.PublicOf(p2))
+			if e != nil || !bytes.Equal(got, want2) {
+				return pbt.Errf("DNSKEY public key field %q is not the RFC encoding of the generated key (alg %d, want %x)", k2.PublicKey, c.Alg, want2)
+			}
+			if t2, e := k2.NewPrivateKey(k2.PrivateKeyString(p2)); e != nil || samePrivate(p2, t2) != nil {
+				return pbt.Errf("export / import of a generated key changes it (alg %d): %v\n%s", c.Alg, e, k2.PrivateKeyString(p2))
+			}
+		}
+		pbt.Class("extra-generated-keys")
+	}
 	pub, perr := ref.ParseKeyOctets(c.Alg, oct)
 	if perr != nil {
 		return pbt.Errf("reference cannot read the DNSKEY public key: %v", perr)
